@@ -53,6 +53,12 @@ func (s *kvStore) apply(ops []Operation) {
 	s.mu.Lock()
 	defer s.mu.Unlock()
 	for _, op := range ops {
+		// A recovered marker travels back for the version that peers acknowledged,
+		// which may be older than the operation currently being gossiped for the
+		// key. It must not displace that newer operation.
+		if cur, ok := s.data[string(op.Key)]; ok && cur.Version.NewerThan(op.Version) {
+			continue
+		}
 		s.data[string(op.Key)] = op
 	}
 }
